@@ -1249,6 +1249,8 @@ class Model:
 
     def add_extra_terms(self, encodings, data, env):
         # Adds additional terms in the common part in case they're needed for full rankness
+        # Returns whether any term has been added
+        added = False
         common_terms = self.common_terms.copy()
         for term in common_terms:
             encoding = encodings.get(term.name)
@@ -1257,6 +1259,8 @@ class Model:
                 for subencoding in encoding[:-1]:
                     extra_term = create_extra_term(term, subencoding, data, env)
                     self.common_terms.insert(self.common_terms.index(term), extra_term)
+                    added = True
+        return added
 
     def eval(self, data, env):
         """Evaluates terms in the model.
@@ -1273,10 +1277,11 @@ class Model:
 
         # Evaluate common terms
         encodings = self._get_encoding_bools()
-        self.add_extra_terms(encodings, data, env)
 
-        # Need to get encodings again after creating possible extra terms
-        encodings = self._get_encoding_bools()
+        # Need to get encodings again after creating possible extra terms. The extra terms may
+        # need extra terms themselves ('f:g:h' needs 'f:g', which in turn needs 'g', ...)
+        while self.add_extra_terms(encodings, data, env):
+            encodings = self._get_encoding_bools()
 
         for term in self.common_terms:
             if term.name in encodings:
